@@ -32,7 +32,7 @@ def env_for(d):
 
 
 def names_or_all(names):
-    return names or sorted(n for n in os.listdir(SEEDED) if os.path.isdir(os.path.join(SEEDED, n)))
+    return names or sorted(n for n in os.listdir(SEEDED) if os.path.isdir(os.path.join(SEEDED, n)) and n != "obsolete")
 
 
 def cmd_import(src, pid):
@@ -96,7 +96,7 @@ def cmd_run(names, tier, also):
                 verdict = {0: "MISSED", 1: "caught", 2: "HARNESS-ERROR"}.get(r.returncode, "rc=%d" % r.returncode)
                 print("%-10s %s %-8s %5.1fs  %s" % (name, prop, verdict, time.time() - t0, (r.stderr.strip().splitlines() or [""])[0][:160] if r.returncode else ""))
                 if r.returncode == 2:
-                    print(r.stderr[-1200:])
+                    print(r.stderr[-700:])
                 meta.setdefault("detection", {})["%s/%s" % (prop, tier)] = {"verdict": verdict, "wall_s": round(time.time() - t0, 1), "seed": int(os.environ.get("VERIF_SEED", "1"))}
             json.dump(meta, open(os.path.join(dst, "meta.json"), "w"), indent=1)
         finally:
